@@ -1769,6 +1769,11 @@ fn run_http(cfg: &Cfg, rep: &mut Report, model: &mut Model, rng: &mut Rng) {
   run_limits(cfg, rep, &svc, &mut server, &models[0]);
   run_parallel_clients(cfg, rep, rng, &svc, &mut server, &models);
   run_unreadable_bodies(rep, &svc, &mut server, &models[0]); // c19fix: unreadable bodies, non-finite results
+  {
+    let mut r = rng.fork();
+    run_printed_forms(cfg, rep, &mut r, &svc, &mut server, &models[0]);
+  }
+  run_endpoints(rep, &svc, &mut server, &models);
   // the service survived everything
   if !server.alive() {
     rep.disagree(Kind::ImplVsSpec, "http", "the service process ended during the run", "(whole run)", "process ended", "a running service");
@@ -2691,6 +2696,731 @@ fn run_limits(cfg: &Cfg, rep: &mut Report, svc: &Service, server: &mut Server, m
             rep.disagree(Kind::ImplVsSpec, "limits", SIG_LIMITS_NUMBER, &input, &show_got, &format!("xsd:decimal, the number {}", text));
           }
         }
+      }
+    }
+  }
+}
+
+// ------------------------------------------------------------------------------------------
+// family `printed-forms`: typed temporal values whose *printed form* has a degenerate component
+// (a sign carried by a fraction alone, a fraction without whole seconds, a zero of either duration
+// kind, a negative zero, every subset of absent components, year ends, offsets of seconds), through
+// the service on both routes: as TCK input (alone, in a list, in a component) and as FEEL text in
+// the body of /evaluate. The expectation is the value written into the request: a text in the
+// normal form (written by `dt_text` / `ym_text` / `time_text` below from the components the
+// generator chose — nothing is taken from the implementation) comes back character for character,
+// any other spelling comes back as a text denoting the same value (judged by the readers
+// `dur_norm` / `time_norm` / `datetime_norm` of this file, written from the XSD lexical forms).
+// ------------------------------------------------------------------------------------------
+
+#[derive(Clone, Debug, PartialEq)]
+enum PfWant {
+  /// the printed text that must come back, character for character
+  Text(String),
+  /// a text of the same type denoting the same value as the one sent
+  Same,
+}
+
+#[derive(Clone, Debug)]
+struct Pf {
+  /// xsd type of the TCK route (None: FEEL route only)
+  typ: Option<&'static str>,
+  /// the text sent on the TCK route / the kind of value for the normaliser ("xsd:duration", …)
+  kind: &'static str,
+  text: String,
+  /// FEEL expressions denoting the value (route /evaluate)
+  feel: Vec<String>,
+  want: PfWant,
+  /// the TCK reader may refuse the text (a form FEEL has and XML Schema has not): an `errors` answer is accepted there
+  tck_may_refuse: bool,
+  /// a computed value: FEEL's temporal arithmetic is the subject of C15 — where the evaluator has no value for the
+  /// operation (null) nothing is claimed here; a value that does come back must be the written one
+  may_be_null: bool,
+}
+
+/// The fraction of a second in the normal form: nine digits without the trailing zeros (empty for 0).
+fn pf_frac(ns: u32) -> String {
+  if ns == 0 {
+    return String::new();
+  }
+  let mut t = format!("{:09}", ns);
+  while t.ends_with('0') {
+    t.pop();
+  }
+  format!(".{}", t)
+}
+
+/// Normal form of a days-and-time duration (XML Schema 1.1 canonical dayTimeDuration, as FEEL's `string()`).
+fn dt_text(neg: bool, d: u64, h: u32, m: u32, s: u32, ns: u32) -> String {
+  if d == 0 && h == 0 && m == 0 && s == 0 && ns == 0 {
+    return "PT0S".into();
+  }
+  let mut t = String::new();
+  if neg {
+    t.push('-');
+  }
+  t.push('P');
+  if d > 0 {
+    t.push_str(&format!("{}D", d));
+  }
+  if h > 0 || m > 0 || s > 0 || ns > 0 {
+    t.push('T');
+    if h > 0 {
+      t.push_str(&format!("{}H", h));
+    }
+    if m > 0 {
+      t.push_str(&format!("{}M", m));
+    }
+    if s > 0 || ns > 0 {
+      t.push_str(&format!("{}{}S", s, pf_frac(ns)));
+    }
+  }
+  t
+}
+
+/// Normal form of a years-and-months duration.
+fn ym_text(neg: bool, y: u64, m: u32) -> String {
+  match (y > 0, m > 0) {
+    (false, false) => "P0M".into(),
+    (true, false) => format!("{}P{}Y", if neg { "-" } else { "" }, y),
+    (false, true) => format!("{}P{}M", if neg { "-" } else { "" }, m),
+    (true, true) => format!("{}P{}Y{}M", if neg { "-" } else { "" }, y, m),
+  }
+}
+
+fn time_text(h: u32, m: u32, s: u32, ns: u32, zone: &str) -> String {
+  format!("{:02}:{:02}:{:02}{}{}", h, m, s, pf_frac(ns), zone)
+}
+
+fn pf_digits(cs: &[char], i: &mut usize) -> Option<String> {
+  let st = *i;
+  while *i < cs.len() && cs[*i].is_ascii_digit() {
+    *i += 1;
+  }
+  if *i > st {
+    Some(cs[st..*i].iter().collect())
+  } else {
+    None
+  }
+}
+
+/// (years-and-months?, amount in months / nanoseconds) of an `xsd:duration` text of one of FEEL's two kinds.
+fn dur_norm(text: &str) -> Option<(bool, i128)> {
+  let cs: Vec<char> = text.chars().collect();
+  let mut i = 0;
+  let neg = cs.first() == Some(&'-');
+  if neg {
+    i += 1;
+  }
+  if cs.get(i) != Some(&'P') {
+    return None;
+  }
+  i += 1;
+  let (mut months, mut nanos): (i128, i128) = (0, 0);
+  let (mut has_ym, mut has_dt) = (false, false);
+  let mut stage = 0; // Y < M < D in the date part
+  while i < cs.len() && cs[i] != 'T' {
+    let n: i128 = pf_digits(&cs, &mut i)?.parse().ok()?;
+    let (st, is_ym, unit): (u32, bool, i128) = match cs.get(i)? {
+      'Y' => (1, true, 12),
+      'M' => (2, true, 1),
+      'D' => (3, false, 86_400_000_000_000),
+      _ => return None,
+    };
+    if st <= stage {
+      return None;
+    }
+    stage = st;
+    i += 1;
+    if is_ym {
+      has_ym = true;
+      months += n * unit;
+    } else {
+      has_dt = true;
+      nanos += n * unit;
+    }
+  }
+  if i < cs.len() {
+    i += 1; // 'T'
+    if i >= cs.len() {
+      return None;
+    }
+    stage = 0;
+    while i < cs.len() {
+      let whole: i128 = pf_digits(&cs, &mut i)?.parse().ok()?;
+      let mut frac: i128 = 0;
+      let mut had_frac = false;
+      if cs.get(i) == Some(&'.') {
+        i += 1;
+        let f = pf_digits(&cs, &mut i)?;
+        if f.len() > 9 {
+          return None; // finer than a nanosecond: outside the values of the claim
+        }
+        frac = format!("{:0<9}", f).parse().ok()?;
+        had_frac = true;
+      }
+      let (st, unit): (u32, i128) = match cs.get(i)? {
+        'H' => (1, 3_600_000_000_000),
+        'M' => (2, 60_000_000_000),
+        'S' => (3, 1_000_000_000),
+        _ => return None,
+      };
+      if st <= stage || (had_frac && st != 3) {
+        return None;
+      }
+      stage = st;
+      i += 1;
+      has_dt = true;
+      nanos += whole * unit + frac;
+    }
+  }
+  match (has_ym, has_dt) {
+    (true, false) => Some((true, if neg { -months } else { months })),
+    (false, true) => Some((false, if neg { -nanos } else { nanos })),
+    _ => None,
+  }
+}
+
+#[derive(Clone, Debug, PartialEq)]
+enum PfZone {
+  Local,
+  Offset(i32),
+  Named(String),
+}
+
+/// `hh:mm:ss[.f]` followed by nothing, `Z`, `±hh:mm[:ss]` or `@Area/Location`.
+fn time_norm(text: &str) -> Option<(u32, u32, u32, u32, PfZone)> {
+  let cs: Vec<char> = text.chars().collect();
+  let two = |i: usize| -> Option<u32> {
+    if cs.len() >= i + 2 && cs[i].is_ascii_digit() && cs[i + 1].is_ascii_digit() {
+      Some(cs[i].to_digit(10)? * 10 + cs[i + 1].to_digit(10)?)
+    } else {
+      None
+    }
+  };
+  let (h, m, s) = (two(0)?, two(3)?, two(6)?);
+  if cs.get(2) != Some(&':') || cs.get(5) != Some(&':') {
+    return None;
+  }
+  let mut i = 8;
+  let mut ns = 0;
+  if cs.get(i) == Some(&'.') {
+    i += 1;
+    let f = pf_digits(&cs, &mut i)?;
+    if f.len() > 9 {
+      return None;
+    }
+    ns = format!("{:0<9}", f).parse().ok()?;
+  }
+  let rest: String = cs[i..].iter().collect();
+  let zone = if rest.is_empty() {
+    PfZone::Local
+  } else if rest == "Z" {
+    PfZone::Offset(0)
+  } else if let Some(name) = rest.strip_prefix('@') {
+    PfZone::Named(name.to_string())
+  } else {
+    let sign = match cs[i] {
+      '+' => 1,
+      '-' => -1,
+      _ => return None,
+    };
+    let (oh, om) = (two(i + 1)?, two(i + 4)?);
+    if cs.get(i + 3) != Some(&':') {
+      return None;
+    }
+    let os = match cs.len() - i {
+      6 => 0,
+      9 if cs[i + 6] == ':' => two(i + 7)?,
+      _ => return None,
+    };
+    PfZone::Offset(sign * (oh * 3600 + om * 60 + os) as i32)
+  };
+  Some((h, m, s, ns, zone))
+}
+
+fn datetime_norm(text: &str) -> Option<(String, (u32, u32, u32, u32, PfZone))> {
+  let (d, t) = text.split_once('T')?;
+  let ok = d.len() == 10 && d.chars().enumerate().all(|(i, c)| if i == 4 || i == 7 { c == '-' } else { c.is_ascii_digit() });
+  if !ok {
+    return None;
+  }
+  Some((d.to_string(), time_norm(t)?))
+}
+
+/// Is `got` a text of kind `kind` denoting the value `sent` denotes?
+fn pf_same(kind: &str, sent: &str, got: &str) -> bool {
+  match kind {
+    "xsd:duration" => dur_norm(sent).is_some() && dur_norm(sent) == dur_norm(got),
+    "xsd:time" => time_norm(sent).is_some() && time_norm(sent) == time_norm(got),
+    "xsd:dateTime" => datetime_norm(sent).is_some() && datetime_norm(sent) == datetime_norm(got),
+    _ => sent == got,
+  }
+}
+
+fn pf_feel(kind: &str, text: &str) -> Vec<String> {
+  match kind {
+    "xsd:duration" => vec![format!("duration(\"{}\")", text), format!("@\"{}\"", text)],
+    "xsd:time" => vec![format!("time(\"{}\")", text), format!("@\"{}\"", text)],
+    "xsd:dateTime" => vec![format!("date and time(\"{}\")", text), format!("@\"{}\"", text)],
+    _ => vec![format!("date(\"{}\")", text), format!("@\"{}\"", text)],
+  }
+}
+
+const PF_FRACS: &[u32] = &[500_000_000, 50_000_000, 250_000_000, 1, 10, 123_456_789, 999_999_999, 100_000_000, 100_000_001, 1_000, 999_999_990];
+
+fn printed_form_cases(rng: &mut Rng, random: usize) -> Vec<Pf> {
+  let mut out: Vec<Pf> = vec![];
+  let mut canon = |kind: &'static str, text: String, tck: bool, refuse: bool| {
+    out.push(Pf { typ: if tck { Some(kind) } else { None }, kind, feel: pf_feel(kind, &text), want: PfWant::Text(text.clone()), text, tck_may_refuse: refuse, may_be_null: false });
+  };
+  // days-and-time durations: every subset of present components, both signs; the fraction alone with every fraction
+  for mask in 1u32..32 {
+    for neg in [false, true] {
+      let fracs: Vec<u32> = if mask & 1 == 0 {
+        vec![0]
+      } else if mask == 1 {
+        PF_FRACS.to_vec()
+      } else {
+        vec![*rng.pick(PF_FRACS), 500_000_000]
+      };
+      for ns in fracs {
+        let d = if mask & 16 != 0 { *rng.pick(&[1u64, 2, 30, 365, 100_000]) } else { 0 };
+        let h = if mask & 8 != 0 { 1 + rng.below(23) as u32 } else { 0 };
+        let m = if mask & 4 != 0 { 1 + rng.below(59) as u32 } else { 0 };
+        let s = if mask & 2 != 0 { 1 + rng.below(59) as u32 } else { 0 };
+        canon("xsd:duration", dt_text(neg, d, h, m, s, ns), true, false);
+      }
+    }
+  }
+  canon("xsd:duration", "PT0S".into(), true, false);
+  // years-and-months durations: every subset, both signs, the zero
+  for (y, m) in [(0u64, 0u32), (1, 0), (0, 1), (0, 11), (1, 1), (1, 11), (100, 0), (999_999, 11)] {
+    for neg in [false, true] {
+      if neg && y == 0 && m == 0 {
+        continue;
+      }
+      canon("xsd:duration", ym_text(neg, y, m), true, false);
+    }
+  }
+  // random durations of both kinds
+  for _ in 0..random {
+    let neg = rng.chance(1, 2);
+    if rng.chance(1, 4) {
+      canon("xsd:duration", ym_text(neg, rng.below(3) * rng.below(1000), rng.below(12) as u32), true, false);
+    } else {
+      let z = |rng: &mut Rng, n: u64| if rng.chance(1, 2) { 0 } else { rng.below(n) };
+      let ns = if rng.chance(1, 2) { 0 } else if rng.chance(1, 2) { *rng.pick(PF_FRACS) } else { rng.below(1_000_000_000) as u32 };
+      canon("xsd:duration", dt_text(neg, z(rng, 1000), z(rng, 24) as u32, z(rng, 60) as u32, z(rng, 60) as u32, ns), true, false);
+    }
+  }
+  // times: every subset of zero components, fractions alone, every kind of zone (offsets of seconds included)
+  let zones: &[(&str, bool)] = &[("", false), ("Z", false), ("+01:00", false), ("-01:00", false), ("+05:30", false), ("-00:30", false), ("+14:00", false), ("-14:00", false), ("+01:00:30", true), ("-00:00:01", true), ("+00:00:59", true), ("-13:59:59", true)];
+  for (h, m, s) in [(0u32, 0u32, 0u32), (0, 0, 1), (0, 1, 0), (1, 0, 0), (23, 59, 59), (12, 0, 0), (10, 20, 30), (0, 59, 0)] {
+    for ns in [0u32, 500_000_000, 1, 999_999_999, 120_000_000] {
+      for (zone, refuse) in zones {
+        if !(ns == 0 || zone.is_empty() || *zone == "Z" || h == 0) {
+          continue;
+        }
+        canon("xsd:time", time_text(h, m, s, ns, zone), true, *refuse);
+      }
+    }
+  }
+  for zone in ["@Europe/Warsaw", "@Etc/UTC", "@America/New_York", "@Asia/Kolkata"] {
+    for ns in [0u32, 500_000_000] {
+      canon("xsd:time", time_text(0, 0, 0, ns, zone), false, true);
+    }
+  }
+  // date-times at the two ends of a year (local date and UTC date in different years with the offsets)
+  for y in [1000u32, 1582, 1999, 2000, 2021, 2024, 9998] {
+    for (md, h, m, s, nss) in [("12-31", 23u32, 59u32, 59u32, &[0u32, 999_999_999, 500_000_000][..]), ("01-01", 0, 0, 0, &[0u32, 1, 500_000_000][..]), ("02-28", 23, 59, 59, &[0u32][..]), ("03-01", 0, 0, 0, &[0u32][..])] {
+      for ns in nss {
+        for (zone, refuse) in zones {
+          if y != 2021 && !(zone.is_empty() || *zone == "Z" || *zone == "-14:00" || *zone == "+14:00") {
+            continue;
+          }
+          canon("xsd:dateTime", format!("{:04}-{}T{}", y, md, time_text(h, m, s, *ns, zone)), true, *refuse);
+        }
+      }
+    }
+  }
+  canon("xsd:dateTime", "9999-12-31T23:59:59.999999999".into(), true, false);
+  canon("xsd:dateTime", "1000-01-01T00:00:00.000000001".into(), true, false);
+  for t in ["2021-12-31", "2022-01-01", "2020-02-29", "2000-12-31", "1000-01-01", "9999-12-31"] {
+    canon("xsd:date", t.to_string(), true, false);
+  }
+  // other spellings of the same values: the value comes back, in whatever spelling
+  for t in [
+    "-PT0S", "-P0D", "P0D", "PT0H", "PT0M", "PT0.0S", "-PT0.0S", "PT0.000000000S", "P0DT0H0M0S", "-P0DT0H0M0.5S", "-PT0.50S", "-PT0.500000000S", "PT0.5000S", "-PT0M0.5S", "-PT0H0.25S", "-P0DT0.000000001S", "PT30M0.5S", "PT90S", "PT3600S", "PT86400S",
+    "PT24H", "PT60M", "-PT60S", "-PT0.999999999S", "PT59.999999999S", "-PT1.000000001S", "P1DT0H", "P1DT0S", "PT1M0S", "PT01S", "PT1.50S", "P0Y", "-P0M", "-P0Y", "P0Y0M", "P12M", "P13M", "P1Y12M", "P0Y5M", "P1Y0M", "-P0Y11M", "P01Y",
+  ] {
+    out.push(Pf { typ: Some("xsd:duration"), kind: "xsd:duration", text: t.to_string(), feel: pf_feel("xsd:duration", t), want: PfWant::Same, tck_may_refuse: false, may_be_null: false });
+  }
+  for t in ["12:00:00.500", "12:00:00.0", "00:00:00.000000000", "00:00:00.50Z", "12:00:00+00:00", "12:00:00-00:00", "00:00:00.5+00:00", "23:59:59.9990"] {
+    out.push(Pf { typ: Some("xsd:time"), kind: "xsd:time", text: t.to_string(), feel: pf_feel("xsd:time", t), want: PfWant::Same, tck_may_refuse: false, may_be_null: false });
+  }
+  for t in ["2021-12-31T23:59:59.500", "2022-01-01T00:00:00.0", "2021-12-31T23:59:59+00:00", "2021-12-31T23:59:59.50-00:00", "2022-01-01T00:00:00.000000000Z"] {
+    out.push(Pf { typ: Some("xsd:dateTime"), kind: "xsd:dateTime", text: t.to_string(), feel: pf_feel("xsd:dateTime", t), want: PfWant::Same, tck_may_refuse: false, may_be_null: false });
+  }
+  // values that are computed: the expectation is the arithmetic of the written operands
+  for (feel, kind, text) in [
+    ("time(\"10:00:00\") - time(\"10:00:00.5\")", "xsd:duration", "-PT0.5S"),
+    ("time(\"10:00:00.5\") - time(\"10:00:00\")", "xsd:duration", "PT0.5S"),
+    ("date and time(\"2021-12-31T23:59:59.75\") - date and time(\"2022-01-01T00:00:00\")", "xsd:duration", "-PT0.25S"),
+    ("date and time(\"2022-01-01T00:00:00\") - date and time(\"2021-12-31T23:59:59.999999999\")", "xsd:duration", "PT0.000000001S"),
+    ("date and time(\"2021-12-31T23:59:59.999999999\") - date and time(\"2022-01-01T00:00:00\")", "xsd:duration", "-PT0.000000001S"),
+    ("-duration(\"PT0.5S\")", "xsd:duration", "-PT0.5S"),
+    ("-duration(\"-PT0.5S\")", "xsd:duration", "PT0.5S"),
+    ("duration(\"PT0.5S\") - duration(\"PT1S\")", "xsd:duration", "-PT0.5S"),
+    ("duration(\"-PT1S\") + duration(\"PT0.75S\")", "xsd:duration", "-PT0.25S"),
+    ("duration(\"-PT1S\") / 4", "xsd:duration", "-PT0.25S"),
+    ("duration(\"PT1S\") * -0.5", "xsd:duration", "-PT0.5S"),
+    ("abs(duration(\"-PT0.5S\"))", "xsd:duration", "PT0.5S"),
+    ("duration(\"PT0.5S\") - duration(\"PT0.5S\")", "xsd:duration", "PT0S"),
+    ("duration(\"-PT0.5S\") * 0", "xsd:duration", "PT0S"),
+    ("duration(\"P1M\") - duration(\"P1M\")", "xsd:duration", "P0M"),
+    ("duration(\"P1Y\") - duration(\"P13M\")", "xsd:duration", "-P1M"),
+    ("-duration(\"P0M\")", "xsd:duration", "P0M"),
+    ("date and time(\"2021-12-31T23:59:59.999999999\") + duration(\"PT0.000000001S\")", "xsd:dateTime", "2022-01-01T00:00:00"),
+    ("date and time(\"2022-01-01T00:00:00\") - duration(\"PT0.000000001S\")", "xsd:dateTime", "2021-12-31T23:59:59.999999999"),
+    ("date and time(\"2022-01-01T00:00:00\") + duration(\"-PT0.5S\")", "xsd:dateTime", "2021-12-31T23:59:59.5"),
+    ("time(\"00:00:00\") - duration(\"PT0.5S\")", "xsd:time", "23:59:59.5"),
+    ("time(\"23:59:59.5\") + duration(\"PT0.5S\")", "xsd:time", "00:00:00"),
+    ("time(\"00:00:00\") + duration(\"-PT0.000000001S\")", "xsd:time", "23:59:59.999999999"),
+  ] {
+    out.push(Pf { typ: None, kind, text: text.to_string(), feel: vec![feel.to_string()], want: PfWant::Text(text.to_string()), tck_may_refuse: false, may_be_null: true });
+  }
+  out
+}
+
+const SIG_PF_JSONIFY: &str = "printed-forms: jsonify of a temporal value is not the JSON string of the value as written";
+const SIG_PF_TCK: &str = "printed-forms: a typed temporal TCK value does not come back as the value that was sent";
+const SIG_PF_FEEL: &str = "printed-forms: a temporal value written in FEEL does not come back in the data member as written";
+const SIG_PF_ANSWER: &str = "printed-forms: a temporal value is not answered with a JSON document that has the data or the errors member";
+
+fn run_printed_forms(cfg: &Cfg, rep: &mut Report, rng: &mut Rng, svc: &Service, server: &mut Server, m: &MDef) {
+  let js = Some("application/json");
+  let cases = printed_form_cases(rng, if cfg.tier == "thorough" { 4000 } else { 150 });
+  rep.extra.insert("printed_forms_cases".into(), json!(cases.len()));
+  let fits = |c: &Pf, got: &str| match &c.want {
+    PfWant::Text(t) => got == t,
+    PfWant::Same => pf_same(c.kind, &c.text, got),
+  };
+  let wanted = |c: &Pf| match &c.want {
+    PfWant::Text(t) => format!("{:?}", t),
+    PfWant::Same => format!("a text denoting the same {} as {:?}", c.kind, c.text),
+  };
+  // in-process: jsonify of the evaluated FEEL text
+  for c in &cases {
+    for fe in &c.feel {
+      rep.case(&format!("printed|jsonify|{}", fe), true);
+      rep.hit(&format!("printed:jsonify:{}", c.kind));
+      let got = guarded(|| eval_feel(fe).map(|v| v.jsonify())).ok().flatten();
+      if c.may_be_null && got.as_deref() == Some("null") {
+        rep.hit("printed:computed value is null (the evaluator has no value for the operation: C15's subject)");
+        rep.notes.push(format!("printed-forms: {} evaluates to null (nothing claimed here; written expectation {})", fe, wanted(c)));
+        continue;
+      }
+      let ok = match &got {
+        Some(t) => matches!(strict_parse(t), Ok(J::Str(s)) if fits(c, &s)),
+        None => false,
+      };
+      if !ok {
+        rep.disagree(Kind::ImplVsSpec, "printed-forms", SIG_PF_JSONIFY, &format!("jsonify of the value of {}", fe), &format!("{:?}", got), &wanted(c));
+      }
+    }
+  }
+  // through the service
+  let setup = [("/definitions/clear", String::new()), ("/definitions/add", svc.content_json(&Content::Model(m.clone()))), ("/definitions/deploy", String::new())];
+  for (path, body) in setup {
+    if let Err(e) = http(server.port, "POST", path, js, body.as_bytes()) {
+      rep.disagree(Kind::ImplVsSpec, "http", "the service stopped answering", path, &e, "an answer");
+      return;
+    }
+  }
+  let simple = |typ: &str, text: &str| json!({"simple": {"type": typ, "text": text, "isNil": false}, "components": null, "list": null});
+  let places = ["alone", "as the item of a list", "as a component"];
+  let eval_path = format!("/evaluate/{}/E", path_segment(&m.name));
+  for c in &cases {
+    // route 1: TCK input
+    if let Some(typ) = c.typ {
+      for place in 0..3usize {
+        let value = match place {
+          0 => simple(typ, &c.text),
+          1 => json!({"simple": null, "components": null, "list": {"items": [simple(typ, &c.text)], "isNil": false}}),
+          _ => json!({"simple": null, "list": null, "components": [{"name": "a", "value": simple(typ, &c.text), "isNil": false}]}),
+        };
+        let body = json!({"model": m.name, "invocable": "E", "input": [{"name": "x", "value": value}]}).to_string();
+        let input = format!("typed value {} {:?} sent {} ;; POST /tck/evaluate {}", typ, c.text, places[place], body);
+        rep.case(&format!("printed|tck|{}|{}|{}", typ, c.text, place), true);
+        rep.hit(&format!("printed:tck:{}:{}", typ, if matches!(c.want, PfWant::Text(_)) { "normal form" } else { "other spelling" }));
+        let a = match http(server.port, "POST", "/tck/evaluate", js, body.as_bytes()) {
+          Ok(a) => a,
+          Err(e) => {
+            rep.disagree(Kind::ImplVsSpec, "printed-forms", SIG_PF_ANSWER, &input, &format!("{} (process alive: {})", e, server.alive()), "a JSON answer");
+            if !server.alive() {
+              return;
+            }
+            continue;
+          }
+        };
+        let answer = String::from_utf8_lossy(&a.body).to_string();
+        let j = match strict_parse(&answer) {
+          Ok(j) if j.get("data").is_some() || matches!(j.get("errors"), Some(J::Arr(xs)) if !xs.is_empty()) => j,
+          _ => {
+            rep.disagree(Kind::ImplVsSpec, "printed-forms", SIG_PF_ANSWER, &input, &format!("{} {}", a.status, answer.chars().take(300).collect::<String>()), "{\"data\":…} or {\"errors\":[…]}");
+            continue;
+          }
+        };
+        if c.tck_may_refuse && j.get("errors").is_some() {
+          rep.hit("printed:tck:refused (a form XML Schema does not have)");
+          continue;
+        }
+        let v = j.get("data").and_then(|d| d.get("value")).and_then(|v| match place {
+          0 => Some(v.clone()),
+          1 => match v.get("list")?.get("items")? {
+            J::Arr(xs) if xs.len() == 1 => Some(xs[0].clone()),
+            _ => None,
+          },
+          _ => match v.get("components")? {
+            J::Arr(xs) if xs.len() == 1 && xs[0].get("name") == Some(&J::Str("a".into())) => xs[0].get("value").cloned(),
+            _ => None,
+          },
+        });
+        let got = v.as_ref().and_then(|v| v.get("simple")).and_then(|s| match (s.get("type"), s.get("text")) {
+          (Some(J::Str(t)), Some(J::Str(x))) => Some((t.clone(), x.clone())),
+          _ => None,
+        });
+        if !matches!(&got, Some((t, x)) if t == typ && fits(c, x)) {
+          let shown = match &got {
+            Some((t, x)) => format!("{} {:?}", t, x),
+            None => answer.chars().take(300).collect(),
+          };
+          rep.disagree(Kind::ImplVsSpec, "printed-forms", SIG_PF_TCK, &input, &shown, &format!("{} {}", typ, wanted(c)));
+        }
+      }
+    }
+    // route 2: FEEL text in the body of /evaluate
+    for (fi, fe) in c.feel.iter().enumerate() {
+      for place in 0..3usize {
+        if fi > 0 && place > 0 {
+          continue;
+        }
+        let body = match place {
+          0 => format!("{{x: {}}}", fe),
+          1 => format!("{{x: [{}]}}", fe),
+          _ => format!("{{x: {{a: {}}}}}", fe),
+        };
+        let input = format!("POST {} {}", eval_path, body);
+        rep.case(&format!("printed|feel|{}|{}", fe, place), true);
+        rep.hit(&format!("printed:evaluate:{}:{}", c.kind, places[place]));
+        let a = match http(server.port, "POST", &eval_path, Some("text/plain"), body.as_bytes()) {
+          Ok(a) => a,
+          Err(e) => {
+            rep.disagree(Kind::ImplVsSpec, "printed-forms", SIG_PF_ANSWER, &input, &format!("{} (process alive: {})", e, server.alive()), "a JSON answer");
+            if !server.alive() {
+              return;
+            }
+            continue;
+          }
+        };
+        let answer = String::from_utf8_lossy(&a.body).to_string();
+        let got = strict_parse(&answer).ok().and_then(|j| {
+          let d = j.get("data")?.clone();
+          match place {
+            0 => Some(d),
+            1 => match d {
+              J::Arr(xs) if xs.len() == 1 => Some(xs[0].clone()),
+              _ => None,
+            },
+            _ => match &d {
+              J::Obj(ms) if ms.len() == 1 => d.get("a").cloned(),
+              _ => None,
+            },
+          }
+        });
+        if c.may_be_null && got == Some(J::Null) {
+          continue;
+        }
+        if !matches!(&got, Some(J::Str(s)) if fits(c, s)) {
+          rep.disagree(Kind::ImplVsSpec, "printed-forms", SIG_PF_FEEL, &input, &answer.chars().take(300).collect::<String>(), &format!("data: {} ({})", wanted(c), places[place]));
+        }
+      }
+    }
+  }
+}
+
+// ------------------------------------------------------------------------------------------
+// family `endpoints`: the two evaluation endpoints (`POST /evaluate/{model}/{invocable}` and
+// `POST /tck/evaluate`) side by side along a directed history. After every definitions operation
+// both endpoints are asked about both models. Expectation (written out per step below, from the
+// property text: evaluation is possible exactly for the models present at the last deploy, no
+// modification having happened since — a rejected request is no modification): `data` with the
+// value sent where evaluation is possible, the `errors` member otherwise. The details of the error
+// (which of the handler's tests failed: `Dmn.Server.do_evaluate`, `do_evaluate_tck`; theorems
+// `evaluate_error_cases`, `tck_evaluate_refines`) are the tie.
+// ------------------------------------------------------------------------------------------
+
+const SIG_EP_VALUE: &str = "endpoints: an evaluation endpoint does not answer the value for a model present at the last deploy with no modification since";
+const SIG_EP_ERRORS: &str = "endpoints: an evaluation endpoint does not answer in the errors member for a model that cannot be evaluated";
+const SIG_EP_PARAMS: &str = "endpoints: an evaluation request without a parameter is not answered in the errors member";
+
+fn run_endpoints(rep: &mut Report, svc: &Service, server: &mut Server, models: &[MDef]) {
+  let js = Some("application/json");
+  let (m1, m3) = (&models[0], &models[4]);
+  let simple = |typ: &str, text: &str| json!({"simple": {"type": typ, "text": text, "isNil": false}, "components": null, "list": null});
+  let add = |m: &MDef| ("/definitions/add", svc.content_json(&Content::Model(m.clone())));
+  let remove = |m: &MDef| ("/definitions/remove", json!({"namespace": m.ns, "name": m.name}).to_string());
+  // (operation, body, the operation is answered with data?, n1 can be evaluated afterwards, n3 can)
+  let steps: Vec<(&str, (&str, String), bool, bool, bool)> = vec![
+    ("clear", ("/definitions/clear", String::new()), true, false, false),
+    ("add n1", add(m1), true, false, false),
+    ("deploy", ("/definitions/deploy", String::new()), true, true, false),
+    ("add n3", add(m3), true, false, false),
+    ("deploy", ("/definitions/deploy", String::new()), true, true, true),
+    ("add n1 again (rejected: a rejected request is no modification)", add(m1), false, true, true),
+    ("add without content (rejected)", ("/definitions/add", "{}".to_string()), false, true, true),
+    ("replace with invalid Base64 (rejected)", ("/definitions/replace", svc.content_json(&Content::Bad64)), false, true, true),
+    ("remove without name (rejected)", ("/definitions/remove", json!({"namespace": m3.ns}).to_string()), false, true, true),
+    ("remove n3", remove(m3), true, false, false),
+    ("deploy", ("/definitions/deploy", String::new()), true, true, false),
+    ("replace n1", ("/definitions/replace", svc.content_json(&Content::Model(m1.clone()))), true, false, false),
+    ("deploy", ("/definitions/deploy", String::new()), true, true, false),
+    ("deploy again", ("/definitions/deploy", String::new()), true, true, false),
+    ("clear", ("/definitions/clear", String::new()), true, false, false),
+    ("deploy (nothing stored)", ("/definitions/deploy", String::new()), true, false, false),
+  ];
+  let mut history = String::new();
+  for (k, (what, (path, body), op_ok, can1, can3)) in steps.iter().enumerate() {
+    history.push_str(&format!("{}{}", if k > 0 { "; " } else { "" }, what));
+    let a = match http(server.port, "POST", path, js, body.as_bytes()) {
+      Ok(a) => String::from_utf8_lossy(&a.body).to_string(),
+      Err(e) => {
+        rep.disagree(Kind::ImplVsSpec, "http", "the service stopped answering", &history, &e, "an answer");
+        return;
+      }
+    };
+    let aj = strict_parse(&a);
+    let shape = match &aj {
+      Ok(j) => if *op_ok { j.get("data").is_some() } else { j.get("errors").is_some() },
+      Err(_) => false,
+    };
+    if !shape {
+      rep.disagree(Kind::ImplVsSpec, "endpoints", "endpoints: a definitions request of the directed history is not answered as its outcome", &history, &a, if *op_ok { "{\"data\":…}" } else { "{\"errors\":[…]}" });
+    }
+    for (m, can) in [(m1, *can1), (m3, *can3)] {
+      let n = 100 + k;
+      let probes: [(&str, String, Option<&str>, String); 2] = [
+        ("/evaluate", format!("/evaluate/{}/E", path_segment(&m.name)), Some("text/plain"), format!("{{x: {}}}", n)),
+        ("/tck/evaluate", "/tck/evaluate".to_string(), js, json!({"model": m.name, "invocable": "E", "input": [{"name": "x", "value": simple("xsd:decimal", &n.to_string())}]}).to_string()),
+      ];
+      for (ep, path, ct, body) in probes.iter() {
+        let input = format!("after [{}]: POST {} {}", history, path, body);
+        rep.case(&format!("endpoints|{}|{}|{}", k, m.name, ep), true);
+        rep.hit(&format!("endpoints:{}:{}", ep, if can { "can be evaluated" } else { "cannot be evaluated" }));
+        let text = match http(server.port, "POST", path, *ct, body.as_bytes()) {
+          Ok(a) => String::from_utf8_lossy(&a.body).to_string(),
+          Err(e) => {
+            rep.disagree(Kind::ImplVsSpec, "http", "the service stopped answering", &input, &e, "an answer");
+            return;
+          }
+        };
+        let j = strict_parse(&text).ok();
+        if can {
+          let ok = match (&j, *ep) {
+            (Some(j), "/evaluate") => j.get("data") == Some(&J::Num(n.to_string())),
+            (Some(j), _) => j.get("data").and_then(|d| d.get("value")).and_then(|v| v.get("simple")).and_then(|s| s.get("text")) == Some(&J::Str(n.to_string())),
+            _ => false,
+          };
+          if !ok {
+            rep.disagree(Kind::ImplVsSpec, "endpoints", SIG_EP_VALUE, &input, &text, &format!("data: the value {}", n));
+          }
+        } else {
+          let details = j.as_ref().and_then(|j| match j.get("errors") {
+            Some(J::Arr(xs)) if xs.len() == 1 => match xs[0].get("details") {
+              Some(J::Str(d)) => Some(d.clone()),
+              _ => None,
+            },
+            _ => None,
+          });
+          match details {
+            None => rep.disagree(Kind::ImplVsSpec, "endpoints", SIG_EP_ERRORS, &input, &text, "{\"errors\":[{\"details\":…}]}"),
+            Some(d) => {
+              let want = format!("WorkspaceError: model evaluator for definitions '{}' is not deployed", m.name);
+              if d != want {
+                rep.disagree(Kind::ImplVsModel, "endpoints", "endpoints: the error of an evaluation that is not possible differs from the handler model", &input, &d, &want);
+              }
+            }
+          }
+        }
+      }
+    }
+  }
+  // the tests of the handlers on their parameters, in their order (the model is not deployed now: a missing
+  // parameter and an unreadable input are reported before the workspace is asked)
+  let no_param: Vec<(&str, &str, Option<&str>, String, &str)> = vec![
+    ("tck: no model", "/tck/evaluate", js, json!({"invocable": "E", "input": []}).to_string(), "ServerError: missing parameter 'model'"),
+    ("tck: no model, no invocable", "/tck/evaluate", js, json!({"input": []}).to_string(), "ServerError: missing parameter 'model'"),
+    ("tck: no invocable", "/tck/evaluate", js, json!({"model": m1.name, "input": []}).to_string(), "ServerError: missing parameter 'invocable'"),
+    ("tck: no invocable, no input", "/tck/evaluate", js, json!({"model": m1.name}).to_string(), "ServerError: missing parameter 'invocable'"),
+    ("tck: no input", "/tck/evaluate", js, json!({"model": m1.name, "invocable": "E"}).to_string(), "ServerError: missing parameter 'input'"),
+    ("tck: not deployed", "/tck/evaluate", js, json!({"model": m1.name, "invocable": "E", "input": []}).to_string(), "WorkspaceError: model evaluator for definitions 'n1' is not deployed"),
+  ];
+  for (what, path, ct, body, want) in no_param.iter() {
+    let input = format!("{}: POST {} {}", what, path, body);
+    rep.case(&format!("endpoints|params|{}", what), true);
+    rep.hit("endpoints:parameter tests");
+    match http(server.port, "POST", path, *ct, body.as_bytes()) {
+      Ok(a) => {
+        let text = String::from_utf8_lossy(&a.body).to_string();
+        let details = strict_parse(&text).ok().and_then(|j| match j.get("errors") {
+          Some(J::Arr(xs)) if xs.len() == 1 => match xs[0].get("details") {
+            Some(J::Str(d)) => Some(d.clone()),
+            _ => None,
+          },
+          _ => None,
+        });
+        match details {
+          None => rep.disagree(Kind::ImplVsSpec, "endpoints", SIG_EP_PARAMS, &input, &text, "{\"errors\":[{\"details\":…}]}"),
+          Some(d) if d != *want => rep.disagree(Kind::ImplVsModel, "endpoints", "endpoints: the error of a request without a parameter differs from the handler model", &input, &d, want),
+          _ => {}
+        }
+      }
+      Err(e) => rep.disagree(Kind::ImplVsSpec, "http", "the service stopped answering", &input, &e, "an answer"),
+    }
+  }
+  // an input that cannot be converted is reported whether or not the model is deployed (the conversion comes first)
+  for deployed in [false, true] {
+    if deployed {
+      for (path, body) in [add(m1), ("/definitions/deploy", String::new())] {
+        let _ = http(server.port, "POST", path, js, body.as_bytes());
+      }
+    }
+    let probes: [(&str, String, Option<&str>, String); 2] = [
+      ("/evaluate", format!("/evaluate/{}/E", path_segment(&m1.name)), Some("text/plain"), "{x: ".to_string()),
+      ("/tck/evaluate", "/tck/evaluate".to_string(), js, json!({"model": m1.name, "invocable": "E", "input": [{"name": "x", "value": simple("xsd:decimal", "12abc")}]}).to_string()),
+    ];
+    for (ep, path, ct, body) in probes.iter() {
+      let input = format!("unreadable input, model {}: POST {} {}", if deployed { "deployed" } else { "not deployed" }, path, body);
+      rep.case(&format!("endpoints|unreadable|{}|{}", ep, deployed), true);
+      rep.hit("endpoints:unreadable input");
+      match http(server.port, "POST", path, *ct, body.as_bytes()) {
+        Ok(a) => {
+          let text = String::from_utf8_lossy(&a.body).to_string();
+          let details = strict_parse(&text).ok().and_then(|j| match j.get("errors") {
+            Some(J::Arr(xs)) if xs.len() == 1 => match xs[0].get("details") {
+              Some(J::Str(d)) => Some(d.clone()),
+              _ => None,
+            },
+            _ => None,
+          });
+          match details {
+            None => rep.disagree(Kind::ImplVsSpec, "endpoints", SIG_EP_ERRORS, &input, &text, "{\"errors\":[{\"details\":…}]}"),
+            Some(d) if d.contains("is not deployed") => rep.disagree(Kind::ImplVsModel, "endpoints", "endpoints: an unreadable input is not reported before the workspace is asked", &input, &d, "the message of the conversion"),
+            _ => {}
+          }
+        }
+        Err(e) => rep.disagree(Kind::ImplVsSpec, "http", "the service stopped answering", &input, &e, "an answer"),
       }
     }
   }
